@@ -8,6 +8,7 @@ cd /verif
 head=$(git -C /repo rev-parse HEAD)
 for d in seeded/$glob/; do
   n=$(basename $d); id=${n%%_*}
+  if grep -q '"retired"' $d/meta.json 2>/dev/null; then echo "$n: retired (see meta.json)"; continue; fi
   git -C $wt checkout -q -- . && git -C $wt checkout -q --detach $head
   if ! git -C $wt apply --check /verif/$d/patch.diff 2>/dev/null; then echo "$n: PATCH DOES NOT APPLY"; continue; fi
   git -C $wt apply /verif/$d/patch.diff
